@@ -40,3 +40,7 @@ def step (st : St) (line : String) : St × List String :=
   | _ => (st, ["bad-op"])
 
 end Driver.Partitioner
+
+def main : IO UInt32 := do
+  Driver.loop (← IO.getStdin) (← IO.getStdout) (none : Driver.Partitioner.St) Driver.Partitioner.step
+  return 0
